@@ -98,7 +98,7 @@ type routerSession struct {
 	handles map[int]*flamego.Route
 	named   map[int]bool
 	exprs   map[int]map[string]*regexp.Regexp // hid → bind name → ^(?:its own expression)$ (EngineLaws monitor)
-	nested  []string // method and path of a request to be served from inside the next request's middleware
+	nested  []string                          // method and path of a request to be served from inside the next request's middleware
 	trees   map[string]flamego.VerifTree
 	shadow  map[int][]flamego.VerifLeaf
 	cur     *reqRecord
